@@ -5600,6 +5600,21 @@ class PyCdlib:
             if mac or efi:
                 part_type = 0
 
+        if part_entry < 1 or part_entry > 4:
+            raise pycdlibexception.PyCdlibInvalidInput('Partition entry can only be between 1 and 4, inclusive')
+
+        if (efi and part_entry == 2) or (mac and part_entry == 3):
+            raise pycdlibexception.PyCdlibInvalidInput('Partition entry is already used by the EFI/Mac partition')
+
+        if part_type < 0 or part_type > 255:
+            raise pycdlibexception.PyCdlibInvalidInput('Partition type can only be between 0 and 255, inclusive')
+
+        if part_offset < 0 or part_offset > 0xffffffff:
+            raise pycdlibexception.PyCdlibInvalidInput('Partition offset must fit in 32 bits')
+
+        if mbr_id is not None and (mbr_id < 0 or mbr_id > 0xffffffff):
+            raise pycdlibexception.PyCdlibInvalidInput('MBR ID must fit in 32 bits')
+
         # Check that the eltorito boot file contains the appropriate
         # signature (offset 0x40, '\xFB\xC0\x78\x70').
         with inode.InodeOpenData(self.eltorito_boot_catalog.initial_entry.inode, self.logical_block_size) as (data_fp, data_len_unused):
